@@ -2550,10 +2550,23 @@ def inline_value_objects(tree):
             for c in ast.walk(fn):
                 if isinstance(c, ast.Call) and any(c.func is a for a in attrs):
                     calls[id(c.func)] = c
+            closures = {}
             for a in attrs:
                 if a.attr in members and a.attr not in props and \
                         id(a) not in calls:
-                    okm = False
+                    # `return v.method`: the bound method as a closure
+                    host = [(blk_, k_) for par_ in [fn] + list(_walk_own(fn))
+                            for fld_ in ("body", "orelse", "finalbody")
+                            for blk_ in [getattr(par_, fld_, None)]
+                            if isinstance(blk_, list)
+                            for k_, x_ in enumerate(blk_)
+                            if isinstance(x_, ast.Return) and x_.value is a]
+                    if len(host) == 1 and not any(
+                            isinstance(n, ast.Name) and n.id == a.attr
+                            for n in ast.walk(fn)):
+                        closures[id(a)] = host[0]
+                    else:
+                        okm = False
             if not okm:
                 continue
             prefix = f"{v}__"
@@ -2572,24 +2585,78 @@ def inline_value_objects(tree):
             def fargs():
                 return [ast.Name(id=prefix + f, ctx=ast.Load())
                         for f in names]
+            direct = {}
+            in_loop = any(isinstance(lp, (ast.For, ast.While)) and any(
+                x is st for x in ast.walk(lp)) for lp in ast.walk(fn))
             for f, e in fields:
                 e2 = _SelfToFields(cname, names, members, props, prefix,
                                    fargs).visit(clone(e))
                 e2 = _SubstNames(subst).visit(e2)
+                # a field that is just one of the caller's names, which
+                # keeps its value from here on: the name itself
+                if isinstance(e, ast.Name) and e.id in params and \
+                        isinstance(e2, ast.Name) and not in_loop and \
+                        not any(isinstance(n, ast.Name) and n.id == e2.id
+                                and isinstance(n.ctx, (ast.Store, ast.Del))
+                                and getattr(n, "lineno", 0) >= st.lineno
+                                for n in ast.walk(fn)):
+                    direct[f] = e2.id
+                    continue
                 new.append(ast.Assign(
                     targets=[ast.Name(id=prefix + f, ctx=ast.Store())],
                     value=e2))
+            if direct:
+                _fa = fargs
+
+                def fargs(_fa=_fa):
+                    return [ast.Name(id=direct.get(
+                        x.id[len(prefix):], x.id), ctx=ast.Load())
+                        for x in _fa()]
+                for x_ in new:
+                    for n in ast.walk(x_):
+                        if isinstance(n, ast.Name) and n.id.startswith(
+                                prefix) and n.id[len(prefix):] in direct \
+                                and isinstance(n.ctx, ast.Load):
+                            n.id = direct[n.id[len(prefix):]]
             # uses
             for a in attrs:
                 if a.attr in names:
-                    _replace_in(fn, a, ast.Name(id=prefix + a.attr,
-                                                ctx=ast.Load()))
+                    _replace_in(fn, a, ast.Name(
+                        id=direct.get(a.attr, prefix + a.attr),
+                        ctx=ast.Load()))
                 elif a.attr in props:
                     synthesised.add((cname, a.attr))
                     _replace_in(fn, a, ast.Call(
                         func=ast.Name(id=f"_vo_{cname.strip('_')}__{a.attr}",
                                       ctx=ast.Load()),
                         args=fargs(), keywords=[]))
+                elif id(a) in closures:
+                    blk_, _k = closures[id(a)]
+                    m = clone(members[a.attr])
+                    m.args.args = m.args.args[1:]
+                    m.decorator_list = []
+                    m.returns = None
+                    m.body = [_SelfToFields(
+                        cname, names, members, props, prefix,
+                        fargs).visit(b) for b in m.body]
+                    for n_ in ast.walk(m):
+                        if isinstance(n_, ast.Name) and n_.id.startswith(
+                                prefix) and n_.id[len(prefix):] in direct:
+                            n_.id = direct[n_.id[len(prefix):]]
+                    ret_ = [x_ for x_ in blk_ if isinstance(
+                        x_, ast.Return) and x_.value is a][0]
+                    ast.copy_location(m, ret_)
+                    ast.fix_missing_locations(m)
+                    blk_.insert(blk_.index(ret_), m)
+                    ret_.value = ast.copy_location(
+                        ast.Name(id=m.name, ctx=ast.Load()), a)
+                    for mm_ in ast.walk(m):
+                        if isinstance(mm_, ast.Call) and isinstance(
+                                mm_.func, ast.Name) and \
+                                mm_.func.id.startswith(
+                                    f"_vo_{cname.strip('_')}__"):
+                            synthesised.add((cname, mm_.func.id.split(
+                                "__", 1)[1]))
                 else:
                     c = calls[id(a)]
                     synthesised.add((cname, a.attr))
@@ -3327,6 +3394,223 @@ def indexed_tuples(fn):
                 done = True
     if done:
         ast.fix_missing_locations(fn)
+    return done
+
+
+def bound_method_aliases(fn):
+    """`add = L.append` (L a local bound once, `add` bound once and only
+    ever called) -> `L.append(..)` at the calls."""
+    stores = {}
+    for n in ast.walk(fn):
+        if isinstance(n, ast.Name) and isinstance(n.ctx, (ast.Store,
+                                                          ast.Del)):
+            stores[n.id] = stores.get(n.id, 0) + 1
+    done = False
+    for par in [fn] + list(_walk_own(fn)):
+        for fld in ("body", "orelse", "finalbody"):
+            blk = getattr(par, fld, None)
+            if not isinstance(blk, list):
+                continue
+            for st in list(blk):
+                if not (isinstance(st, ast.Assign) and len(st.targets) == 1
+                        and isinstance(st.targets[0], ast.Name)
+                        and isinstance(st.value, ast.Attribute)
+                        and isinstance(st.value.value, ast.Name)
+                        and st.value.attr in ("append", "extend", "add",
+                                              "update", "write")):
+                    continue
+                a, L = st.targets[0].id, st.value.value.id
+                if stores.get(a) != 1 or stores.get(L, 0) != 1:
+                    continue
+                refs = [n for n in ast.walk(fn) if isinstance(n, ast.Name)
+                        and n.id == a and isinstance(n.ctx, ast.Load)]
+                calls = [c for c in ast.walk(fn) if isinstance(c, ast.Call)
+                         and isinstance(c.func, ast.Name) and c.func.id == a]
+                if not refs or len(refs) != len(calls):
+                    continue
+                for c in calls:
+                    c.func = ast.copy_location(ast.Attribute(
+                        value=ast.Name(id=L, ctx=ast.Load()),
+                        attr=st.value.attr, ctx=ast.Load()), c.func)
+                blk.remove(st)
+                done = True
+    if done:
+        ast.fix_missing_locations(fn)
+    return done
+
+
+def projected_records(fn):
+    """A local list that only receives `L.append((a, b, ..))` and is read by
+    one comprehension `[x for (.., x, ..) in L]` that picks one position
+    -> the appends keep that element only and the comprehension becomes
+    `list(L)`."""
+    done = False
+    lists = {}
+    for n in _walk_own(fn):
+        if isinstance(n, ast.Assign) and len(n.targets) == 1 and isinstance(
+                n.targets[0], ast.Name) and isinstance(
+                n.value, ast.List) and not n.value.elts:
+            lists.setdefault(n.targets[0].id, []).append(n)
+    for L, defs in lists.items():
+        if len(defs) != 1:
+            continue
+        refs = [n for n in ast.walk(fn) if isinstance(n, ast.Name)
+                and n.id == L]
+        apps = [c for c in ast.walk(fn) if isinstance(c, ast.Call)
+                and isinstance(c.func, ast.Attribute) and c.func.attr ==
+                "append" and isinstance(c.func.value, ast.Name)
+                and c.func.value.id == L and len(c.args) == 1
+                and not c.keywords and isinstance(c.args[0], ast.Tuple)]
+        comps = [c for c in ast.walk(fn) if isinstance(c, (
+            ast.ListComp, ast.GeneratorExp)) and len(c.generators) == 1
+            and isinstance(c.generators[0].iter, ast.Name)
+            and c.generators[0].iter.id == L and not c.generators[0].ifs]
+        if not apps or len(comps) != 1 or len(refs) != 1 + len(apps) + 1:
+            continue
+        comp = comps[0]
+        tg = comp.generators[0].target
+        if not (isinstance(tg, ast.Tuple) and all(
+                isinstance(e, ast.Name) for e in tg.elts)
+                and isinstance(comp.elt, ast.Name)):
+            continue
+        names = [e.id for e in tg.elts]
+        if names.count(comp.elt.id) != 1:
+            continue
+        k = names.index(comp.elt.id)
+        if any(len(c.args[0].elts) != len(names) for c in apps):
+            continue
+        # the dropped elements must be free of effects
+        if any(not isinstance(e, (ast.Constant, ast.Name, ast.JoinedStr))
+               for c in apps for i_, e in enumerate(c.args[0].elts)
+               if i_ != k):
+            continue
+        for c in apps:
+            c.args[0] = c.args[0].elts[k]
+        new = ast.Call(func=ast.Name(id="list", ctx=ast.Load()),
+                       args=[ast.Name(id=L, ctx=ast.Load())], keywords=[])
+        _replace_in(fn, comp, new)
+        done = True
+    if done:
+        ast.fix_missing_locations(fn)
+    return done
+
+
+def redispatch_loops(tree):
+    """`def f(x): while True: if A: return ..; elif B: x = E; ...` (every
+    branch returns/raises or only re-binds a parameter) is the loop form of
+    the tail recursion `elif B: return f(E)`: written back as the recursion
+    (one dispatch chain, as the encoders of this code base are written)."""
+    done = False
+    for st in tree.body:
+        if not isinstance(st, ast.FunctionDef) or st.decorator_list:
+            continue
+        a = st.args
+        if a.vararg or a.kwarg or a.kwonlyargs or a.posonlyargs:
+            continue
+        body = [b for b in st.body if not (isinstance(
+            b, ast.Expr) and isinstance(b.value, ast.Constant))]
+        if len(body) != 1 or not isinstance(body[0], ast.While):
+            continue
+        w = body[0]
+        if w.orelse or not (isinstance(w.test, ast.Constant)
+                            and w.test.value is True) or len(w.body) != 1 \
+                or not isinstance(w.body[0], ast.If):
+            continue
+        if any(isinstance(n, (ast.Break, ast.Continue)) for n in ast.walk(w)):
+            continue
+        params = [x.arg for x in a.args]
+        ok = True
+        rebinds = []
+
+        def leaf(blk):
+            nonlocal ok
+            if not blk:
+                ok = False
+                return
+            last = blk[-1]
+            if isinstance(last, (ast.Return, ast.Raise)):
+                return
+            if isinstance(last, ast.If) and last.orelse:
+                leaf(last.body)
+                leaf(last.orelse)
+                return
+            if len(blk) == 1 and isinstance(last, ast.Assign) and len(
+                    last.targets) == 1 and isinstance(
+                    last.targets[0], ast.Name) and \
+                    last.targets[0].id in params:
+                rebinds.append((blk, last))
+                return
+            ok = False
+        leaf(w.body)
+        if not ok or not rebinds:
+            continue
+        for blk, asg in rebinds:
+            p_ = asg.targets[0].id
+            call = ast.Call(func=ast.Name(id=st.name, ctx=ast.Load()),
+                            args=[asg.value if x == p_ else ast.Name(
+                                id=x, ctx=ast.Load()) for x in params],
+                            keywords=[])
+            blk[0] = ast.copy_location(ast.Return(value=call), asg)
+        doc = [b for b in st.body[:1] if isinstance(b, ast.Expr)
+               and isinstance(b.value, ast.Constant)]
+        st.body = doc + w.body
+        ast.fix_missing_locations(st)
+        done = True
+    return done
+
+
+def forward_flags(fn):
+    """`f = False`; <one statement that may set `f = True`>; `if f: g = True`
+    (f used nowhere else) -> the statement with `g = True` in place of
+    `f = True`; the init and the test are dropped."""
+    done = False
+    for par in [fn] + list(_walk_own(fn)):
+        for fld in ("body", "orelse", "finalbody"):
+            blk = getattr(par, fld, None)
+            if not isinstance(blk, list):
+                continue
+            i = 0
+            while i + 2 < len(blk):
+                a, mid, c = blk[i], blk[i + 1], blk[i + 2]
+                i += 1
+                if not (isinstance(a, ast.Assign) and len(a.targets) == 1
+                        and isinstance(a.targets[0], ast.Name)
+                        and isinstance(a.value, ast.Constant)
+                        and a.value.value is False):
+                    continue
+                f = a.targets[0].id
+                if not (isinstance(c, ast.If) and isinstance(
+                        c.test, ast.Name) and c.test.id == f
+                        and not c.orelse and len(c.body) == 1
+                        and isinstance(c.body[0], ast.Assign)
+                        and len(c.body[0].targets) == 1
+                        and isinstance(c.body[0].targets[0], ast.Name)
+                        and isinstance(c.body[0].value, ast.Constant)
+                        and c.body[0].value.value is True):
+                    continue
+                g = c.body[0].targets[0].id
+                if not isinstance(mid, (ast.For, ast.While, ast.If)):
+                    continue
+                refs = [n for n in ast.walk(fn) if isinstance(n, ast.Name)
+                        and n.id == f]
+                sets = [n for n in ast.walk(mid) if isinstance(n, ast.Assign)
+                        and len(n.targets) == 1 and isinstance(
+                            n.targets[0], ast.Name) and n.targets[0].id == f]
+                if not sets or any(not (isinstance(
+                        x.value, ast.Constant) and x.value.value is True)
+                        for x in sets):
+                    continue
+                if len(refs) != 2 + len(sets):
+                    continue
+                if any(isinstance(n, ast.Name) and n.id == g
+                       for n in ast.walk(mid)):
+                    continue
+                for x in sets:
+                    x.targets[0].id = g
+                blk.remove(a)
+                blk.remove(c)
+                done = True
+                i = 0
     return done
 
 
